@@ -120,7 +120,8 @@ macro_rules! lookup_instance {
 //@ harness: c17_lookup_full_d2_t1 c17_lookup_ids_d3_t1 c17_lookup_trees_d2_t2
 //@ prop: C17
 //@ tier: quick
-//@ timeout: 900
+//@ timeout: 2400
+//@ mem: 10
 //@ unwindset: ^memcmp#0=34
 //@ fsarray: 1024
 //@ kernel: Index::{get_id,has} (binary search), GlobalIndex::{new_from_index,get_id,has}, ReadIndex::{get_tree,get_data,has_tree,has_data}, IndexEntry::new
@@ -249,8 +250,8 @@ macro_rules! collector_instance {
 //@ harness: c17_collect_full_1_1 c17_collect_ids_1_1 c17_collect_trees_0_2
 //@ prop: C17
 //@ tier: quick
-//@ timeout: 900
-//@ mem: 12
+//@ timeout: 2400
+//@ mem: 14
 //@ unwindset: ^memcmp#0=34
 //@ fsarray: 1024
 //@ kernel: IndexCollector::{new, extend}, IndexPack::{blob_type, pack_size}
@@ -285,7 +286,8 @@ collector_instance!(c17_collect_ids_2_1, [2, 1], [BlobType::Data, BlobType::Data
 //@ harness: c17_pack_iteration
 //@ prop: C17
 //@ tier: quick
-//@ timeout: 900
+//@ timeout: 2400
+//@ mem: 10
 //@ unwindset: ^memcmp#0=34
 //@ fsarray: 1024
 //@ kernel: PackIndexes::next
